@@ -26,7 +26,7 @@ def spellings(unit, fnames):
 
 
 class TokenModel:
-    def __init__(self, P, unit, fnames, extra_opaque=(), cut=None, globals_=None, loop_limit=1, track_stores=True, lazy_field=None):
+    def __init__(self, P, unit, fnames, extra_opaque=(), cut=None, globals_=None, loop_limit=1, track_stores=True, lazy_field=None, forever_limit=64):
         self.P = P
         self.u = unit
         self.keys = spellings(unit, fnames) + [OTHER]
@@ -39,7 +39,7 @@ class TokenModel:
         if cut:
             self.cut.update(cut)
         self.cfg = {'cut': self.cut, 'opaque': list(extra_opaque), 'globals': globals_ or {}, 'loop_limit': loop_limit,
-                    'track_stores': track_stores, 'lazy_field': lazy_field}
+                    'track_stores': track_stores, 'lazy_field': lazy_field, 'forever_limit': forever_limit}
 
     def _advancing(self, name):
         def h(it, ctx, n, args):
